@@ -12,6 +12,21 @@ NOT_APPLICABLE = {
 }
 
 PROPERTIES = {
+    "C19": {
+        "modules": ["harness.c19"],
+        "explanation": "",
+        "assumptions": COMMON_ASSUMPTIONS + [
+            "images are 8 catalogue entries (areas / zones / gaps / all-zero areas / out-of-order areas); only the record cut positions and the "
+            "selections are solver variables: once they are chosen the files are concrete and ledgerblue's IntelHexParser, argparse and "
+            "SHA-256 run natively (library code and hashing are outside the claim)",
+            "ecdsa inside signonetime is a token algebra (generate() gives a fresh secret token, sign_digest / verifying key are tagged "
+            "byte strings); 'the signature verifies under the public key' therefore means: it is sign(sk, hash) for the sk whose pub(sk) is written",
+            "files are held in memory (open inside ledgerblue.hexParser / signonetime is rebound); real file I/O is outside the claim",
+        ],
+        "level_text": "bounded symbolic verification with a concrete image catalogue: record cut positions and image-set selection symbolic; "
+                      "oracle = SHA-256 over areas in address order, one signature per image by the single fresh key, secret never written",
+        "level_note": "trusted: CrossHair/z3, ledgerblue's parser, hashlib, the ecdsa token algebra, the in-memory file system",
+    },
     "C14": {
         "modules": ["harness.c14"],
         "selfchecks": ["engine/selfcheck_shim.py"],
